@@ -587,6 +587,11 @@ func c08JudgeDeep(c *Ctx, label, in string, iv interface{}, depth int, mapTower 
 			indentMax = 1000
 		}
 	}
+	if depth > 2500 && indentMax > 2500 {
+		// the indented text grows with the square of the depth (1.4 GB at 20000 levels, for encoding/json
+		// as well): beyond the property's range of depths only the entry points without indentation run
+		indentMax = 2500
+	}
 	if depth <= indentMax {
 		stdi := func() ([]byte, error) { return stdjson.MarshalIndent(iv, "", " ") }
 		eq("marshalindent", func() ([]byte, error) { return json.MarshalIndent(iv, "", " ") }, stdi, nil)
@@ -594,7 +599,7 @@ func c08JudgeDeep(c *Ctx, label, in string, iv interface{}, depth int, mapTower 
 			return json.MarshalIndentWithOption(iv, "", " ", json.Colorize(c13Scheme))
 		}, stdi, func(b []byte) []byte { return c13Strip.ReplaceAll(b, nil) })
 	} else {
-		c.Rep.Hist["indent-skipped-deep-map-tower"]++
+		c.Rep.Hist["indent-skipped-deep"]++
 	}
 	errs, acc, maxSlot, _, frames := json.VerifSlotsReport()
 	json.VerifSlotsReset(false)
@@ -685,7 +690,7 @@ func runC08(c *Ctx) {
 	}
 	ndepth := len(fam) * len(depths)
 	if c.Thorough() {
-		c.CaseBudget = 12 // chains of 5000 and 20000 levels with callbacks that collect garbage take seconds
+		c.CaseBudget = 40 // chains of 5000 and 20000 levels with callbacks that collect garbage take seconds
 		c.Chunk = 100
 	}
 	c.RunCases("depth", ndepth, func(c *Ctx, k int, rng *rand.Rand) {
